@@ -62,6 +62,7 @@ func kitchenSchema() *N {
 		"flt", Obj("type", Str("float")),
 		"tags", Obj("type", Str("stringArray"), "stringArray", Obj("caseSensitive", Bool(false))),
 		"nest.n", Obj("type", Str("integer")),
+		"deep.a.b", Obj("type", Str("integer")), // (an indexed property three maps deep)
 	)
 }
 
@@ -78,6 +79,7 @@ func kitchenPoint(i int) *N {
 		"flt", Flt(f*1.5),
 		"tags", Strs(fmt.Sprintf("t%d", i%3), "common"),
 		"nest", Obj("n", Int64(int64(i))),
+		"deep", Obj("a", Obj("b", Int64(int64(i+100)))),
 		"extra", Obj("k", Arr(Int(1), Int(2), Obj("z", Null()))),
 	)
 }
